@@ -85,6 +85,12 @@ def h_run(P, kinds, props, steps=3, mech="nbc", hibernation=True, L=2, generatio
                     P.oblige("C06.stopped_deme_frozen", digest(d) == pre["digests"][d.id])
                 if not d._active:
                     was_inactive.add(d.id)
+        if "C20" in props:
+            _purity(P, w, tree)
+        if "C09" in props:
+            for _, d in tree.all_demes:
+                want = np.mean([ind.genome for ind in d.current_population], axis=0)
+                P.oblige("C09.centroid_is_mean_of_current_population", bool(np.array_equal(d.centroid, want)))
         if "C07" in props:
             _tree_invariant(P, w, tree)
         if "C08" in props:
@@ -138,6 +144,35 @@ def h_run(P, kinds, props, steps=3, mech="nbc", hibernation=True, L=2, generatio
             pre = check_step_start()
             tree.run_step()
             check_step_end(pre)
+
+
+def _observable_state(w, tree):
+    return (tree.metaepoch_count, [[(d.id, d._active, d._hibernating, d.n_evaluations, d.started_at, digest(d), [c.id for c in d.children])
+                                    for d in lvl] for lvl in tree.levels], len(w.log.entries))
+
+
+def _purity(P, w, tree):
+    accessors = {
+        "summary": lambda: tree.summary(),
+        "tree": lambda: tree.tree(),
+        "best_individual": lambda: (tree.best_individual.fitness, tuple(tree.best_individual.genome)),
+        "best_leaf_individual": lambda: (tree.best_leaf_individual.fitness if tree.leaves else None),
+        "all_individuals": lambda: [(i.fitness, tuple(i.genome)) for i in tree.all_individuals],
+        "r5s_solutions": lambda: [(i.fitness, tuple(i.genome)) for i in tree.r5s_solutions],
+        "n_evaluations": lambda: tree.n_evaluations,
+        "deme.best": lambda: [(d.best_individual.fitness, d.best_current_individual.fitness) for _, d in tree.all_demes],
+        "deme.centroid": lambda: [tuple(d.centroid) for _, d in tree.all_demes],
+        "deme.best_fitness_by_metaepoch": lambda: [d.best_fitness_by_metaepoch for _, d in tree.all_demes],
+        "deme.history": lambda: [len(d.history) for _, d in tree.all_demes],
+    }
+    for name, f in accessors.items():
+        before = _observable_state(w, tree)
+        a = f()
+        mid = _observable_state(w, tree)
+        b = f()
+        after = _observable_state(w, tree)
+        P.oblige(f"pure.{name}.no_state_change_no_evaluation", before == mid == after)
+        P.oblige(f"pure.{name}.same_answer_twice", a == b)
 
 
 def _best(P, w, tree, best_so_far, maximize):
